@@ -20,6 +20,14 @@ func (m *Machine) floatConst(f float64, w int) *smt.Term {
 
 func (m *Machine) binop(op token.Token, xt types.Type, x, y Value, yt types.Type) Value {
 	c := m.ctx
+	if _, _, fl, ok := typeWidth(xt); ok && fl && (op == token.EQL || op == token.NEQ) {
+		// IEEE equality: NaN != NaN, -0 == +0
+		eq := c.FpCmp("fp.eq", x.(*smt.Term), y.(*smt.Term))
+		if op == token.NEQ {
+			return c.Not(eq)
+		}
+		return eq
+	}
 	switch op {
 	case token.EQL:
 		return m.equal(x, y)
